@@ -971,6 +971,11 @@ class Parser:
             op_token = self._advance()
             op = op_token.value
             argument = self._parse_unary_expression()
+            if self._check(TokenType.STARSTAR):
+                # -2 ** 2 is neither (-2) ** 2 nor -(2 ** 2) in the language
+                raise self._error(
+                    "Unary operator before '**': parenthesize the operand or the power"
+                )
             return UnaryExpression(op, argument)
 
         # Prefix increment/decrement
